@@ -3,7 +3,7 @@ Props/C26 — yq results do not depend on the input's syntax.  Property theorems
 -/
 import SuccinctlyVerif.Proof.YamlRoundTrip
 namespace SV.Props.C26
-open SV SV.Yaml
+open SV SV.YamlRef
 
 /-- Full statement (not asserted): every admissible YAML rendering of a tree and its JSON encoding
 read back to the same tree. -/
